@@ -407,6 +407,14 @@ class SurvVec(Obj):
     def elem_loc(self, idx):
         return SurvRef(self, idx)
 
+    def m_back(self, I, args, n):
+        I.ctx.oblige("vector-back-nonempty@%s" % extract.line_of(n), self.f(I.ctx, "len") > 0, kind="bounds")
+        return SurvRef(self, self.f(I.ctx, "len") - 1)
+
+    def m_front(self, I, args, n):
+        I.ctx.oblige("vector-front-nonempty@%s" % extract.line_of(n), self.f(I.ctx, "len") > 0, kind="bounds")
+        return SurvRef(self, z3.IntVal(0))
+
     def op(self, I, op, rest, n, a0):
         if op == "[]":
             i = I.ctx.rv(rest[0])
@@ -1703,3 +1711,161 @@ class NormalizeCall(Kernel):
 
 
 KERNELS += [NormalizeCall]
+
+
+# ---------------------------------------------------------------- operator_rank (operator_dispatch.h): one accumulator for the whole signature
+ACC = z3.DeclareSort("RankAccumulatorState")
+ACC0 = z3.Const("empty_accumulator", ACC)
+COLLECT_TS = z3.Function("collect_ts_rank", ACC, I_, ACC)         # (state, parameter) -> state
+COLLECT_SC = z3.Function("collect_scalar_rank", ACC, I_, ACC)
+ACC_TOTAL = z3.Function("accumulator_total", ACC, I_)
+FOLD = z3.Function("fold_parameters", I_, ACC)                    # fold(k) = state after the first k parameters
+
+
+class AccObj(Obj):
+    cls = "RankAccumulator"
+
+    def __init__(self, ctx):
+        Obj.__init__(self, name="acc")
+        ctx.store[(self.oid, "state")] = ACC0
+
+    def m_total(self, I, args, n):
+        return ACC_TOTAL(I.ctx.store[(self.oid, "state")])
+
+
+class ParamRef(Obj):
+    cls = "ParamPattern"
+
+    def __init__(self, k, idx):
+        Obj.__init__(self, name="param")
+        self.k, self.idx = k, idx
+
+    def member(self, ctx, name, node):
+        if name == "kind":
+            return z3.If(self.k.is_input[self.idx], z3.IntVal(0), z3.IntVal(1))
+        if name in ("ts", "scalar"):
+            o = Obj("pattern", name)
+            o.param = self.idx
+            o.which = name
+            return o
+        raise Gap("ParamPattern.%s" % name)
+
+
+class ParamVec(Obj):
+    cls = "std::vector<ParamPattern>"
+
+    def __init__(self, k):
+        Obj.__init__(self, name="params")
+        self.k = k
+
+    def m_size(self, I, args, n):
+        return self.k.n
+
+    def m_empty(self, I, args, n):
+        return self.k.n == 0
+
+    def op(self, I, op, rest, n, a0):
+        if op == "[]":
+            i = I.ctx.rv(rest[0])
+            I.ctx.oblige("vector-index-in-range@%s" % extract.line_of(n), z3.And(i >= 0, i < self.k.n), kind="bounds")
+            return ParamRef(self.k, i)
+        return NotImplemented
+
+
+class OperatorRank(Kernel):
+    """Spec function: rank(params) = total(fold(collect, empty accumulator, params[0..count))) -- ONE accumulator receives every
+    counted parameter in order, so a type variable repeated across parameters is counted once (at its cheapest position).  The
+    accumulator's own arithmetic (add_var's min-merge, total's sum) is behind the uninterpreted collect / total functions."""
+    name = "operator_dispatch.h:operator_rank"
+    tu = "src/hgraph/types/operator_dispatch.cpp"
+    filter = "operator_rank"
+    fn_name = "operator_rank"
+    property_ids = ("C19",)
+    scope = {"lo": 0, "hi": 3}
+    bounded_fallback = 3
+    title = "operator_rank: the candidate's specificity is the total of ONE accumulator fed with every counted parameter"
+
+    def setup(self, I):
+        ctx = I.ctx
+        self.n = z3.Int("n_params")
+        self.skip = z3.Bool("skip_variadic_tail")
+        self.is_input = z3.Array("param_is_input", I_, z3.BoolSort())
+        ctx.assume(self.n >= 0)
+        qk = z3.Int("qk")
+        step = z3.If(self.is_input[qk], COLLECT_TS(FOLD(qk), qk), COLLECT_SC(FOLD(qk), qk))
+        ctx.assume(FOLD(0) == ACC0)
+        ctx.assume(z3.ForAll([qk], z3.Implies(qk >= 0, FOLD(qk + 1) == step)))
+        return None, {"params": ParamVec(self), "skip_variadic_tail": self.skip}
+
+    def bound_sizes(self, I, n):
+        I.ctx.assume(self.n <= n)
+
+    def ctor_handler(self, qt, node):
+        if qt.endswith("RankAccumulator"):
+            return lambda I, args, n: AccObj(I.ctx)
+        return Kernel.ctor_handler(self, qt, node)
+
+    def default_value(self, I, qt, d):
+        if strip_type(qt).endswith("RankAccumulator"):
+            return AccObj(I.ctx)
+        return Kernel.default_value(self, I, qt, d)
+
+    def enum_const(self, I, ref):
+        if ref.get("name") == "Input":
+            return z3.IntVal(0)
+        if ref.get("name") == "Scalar":
+            return z3.IntVal(1)
+        raise Gap("enum constant %s" % ref.get("name"))
+
+    def collect(self, fn, want):
+        def h(I, args, n):
+            ctx = I.ctx
+            pat, acc = ctx.rv(args[0]), ctx.rv(args[1])
+            if not isinstance(acc, AccObj) or getattr(pat, "param", None) is None:
+                raise Gap("collect rank on %r / %r" % (pat, acc))
+            ctx.oblige("callee-pre.%s-pattern-of-a-%s-parameter" % (want, want), z3.BoolVal(pat.which == want), kind="callee-pre")
+            if want == "scalar":
+                ctx.oblige("callee-pre.scalar-parameters-rank-their-variables-at-1", ctx.rv(args[2]) == 1, kind="callee-pre")
+            st = ctx.store[(acc.oid, "state")]
+            ctx.write(Loc((acc.oid, "state")), fn(st, pat.param))
+            return VOID
+        return h
+
+    def function_handler(self, name, node, callee_node):
+        if name == "collect_ts_rank":
+            return self.collect(COLLECT_TS, "ts")
+        if name == "collect_scalar_rank":
+            return self.collect(COLLECT_SC, "scalar")
+        if name == "param_pattern_rank":
+            # the neighbouring helper (five lines, same header): the rank of ONE parameter on its own, fresh accumulator
+            def ppr(I, args, n):
+                p = I.ctx.rv(args[0])
+                if not isinstance(p, ParamRef):
+                    raise Gap("param_pattern_rank(%r)" % (p,))
+                return ACC_TOTAL(z3.If(self.is_input[p.idx], COLLECT_TS(ACC0, p.idx), COLLECT_SC(ACC0, p.idx)))
+            return ppr
+        return Kernel.function_handler(self, name, node, callee_node)
+
+    def count(self):
+        return z3.If(z3.And(self.skip, self.n > 0), self.n - 1, self.n)
+
+    def _inv(self, I, ctx):
+        i = self.local(I, "i")
+        acc = self.local_obj(I, "acc")
+        yield "index-range", z3.And(i >= 0, i <= self.count())
+        yield "one-accumulator-holds-the-fold-of-the-parameters-so-far", ctx.store[(acc.oid, "state")] == FOLD(i)
+
+    def _frame(self, I, ctx):
+        return [Loc((self.local_obj(I, "acc").oid, "state"))]
+
+    @property
+    def loops(self):
+        return {0: LoopSpec(inv=self._inv, frame=self._frame)}
+
+    def post(self, I, ret):
+        I.ctx.oblige("ensures.rank=total-of-one-accumulator-over-all-counted-parameters[C19 the unique most specific match: a variable "
+                     "repeated across parameters counts once, so the aligned overload ranks ahead of its independent-variable twin]",
+                     ret == ACC_TOTAL(FOLD(self.count())), kind="post-normal")
+
+
+KERNELS += [OperatorRank]
